@@ -24,15 +24,38 @@ Lemma endcr_app : forall a p b, endcr p (a ++ b) = endcr (endcr p a) b.
 Proof. induction a as [|x a IH]; intros p b; [reflexivity|]. cbn [app endcr]. apply IH. Qed.
 
 (** * queue writes *)
-Lemma q_writes_clean cfg ws : c_wfail cfg = None ->
-  forall com lc be ms gr qh wc net,
+(** the injected write fault, if any, is already behind us *)
+Definition wf_clean (cfg : rxcfg) (wc : nat) : Prop :=
+  match c_wfail cfg with None => True | Some (k, _) => k < wc end.
+
+Lemma wf_clean_mono cfg wc wc' : wf_clean cfg wc -> wc <= wc' -> wf_clean cfg wc'.
+Proof. unfold wf_clean. destruct (c_wfail cfg) as [[k e]|]; [lia|auto]. Qed.
+
+Lemma q_writes_clean cfg ws :
+  forall com lc be ms gr qh wc net, wf_clean cfg wc ->
   q_writes cfg (mk_rx com lc be ms gr true qh wc net) ws
   = (None, mk_rx com lc be ms gr true qh (wc + length ws) net, map EvQ ws).
 Proof.
-  intros Hw. induction ws as [|w ws IH]; intros com lc be ms gr qh wc net.
+  induction ws as [|w ws IH]; intros com lc be ms gr qh wc net Hw.
   - cbn. rewrite Nat.add_0_r. reflexivity.
-  - cbn [q_writes q_write r_qdata negb]. rewrite Hw. cbn [r_com r_lastcr r_bdaterr r_msgsize r_goodrcpt r_qdata r_qhdr r_wcount r_net].
-    rewrite IH. cbn [length map app]. replace (S wc + length ws) with (wc + S (length ws)) by lia. reflexivity.
+  - cbn [q_writes q_write r_qdata negb r_wcount].
+    assert (E : match c_wfail cfg with
+                | Some (k, e) => if Nat.eqb k wc then (Some e, mk_rx com lc be ms gr true qh (S wc) net, [EvQFail])
+                                 else (None, mk_rx com lc be ms gr true qh (S wc) net, [EvQ w])
+                | None => (None, mk_rx com lc be ms gr true qh (S wc) net, [EvQ w])
+                end = (None, mk_rx com lc be ms gr true qh (S wc) net, [EvQ w])).
+    { unfold wf_clean in Hw. destruct (c_wfail cfg) as [[k e]|]; [|reflexivity].
+      destruct (Nat.eqb_spec k wc); [lia|reflexivity]. }
+    cbn [r_com r_lastcr r_bdaterr r_msgsize r_goodrcpt r_qdata r_qhdr r_wcount r_net]. rewrite E.
+    rewrite IH by (eapply wf_clean_mono; [exact Hw|lia]).
+    cbn [length map app]. replace (S wc + length ws) with (wc + S (length ws)) by lia. reflexivity.
+Qed.
+
+Lemma q_write_clean cfg b com lc be ms gr qh wc net : wf_clean cfg wc ->
+  q_write cfg (mk_rx com lc be ms gr true qh wc net) b = (None, mk_rx com lc be ms gr true qh (S wc) net, [EvQ b]).
+Proof.
+  intros Hw. unfold q_write, wf_clean in *. cbn [r_qdata negb r_wcount r_com r_lastcr r_bdaterr r_msgsize r_goodrcpt r_qhdr r_net].
+  destruct (c_wfail cfg) as [[k e]|]; [|reflexivity]. destruct (Nat.eqb_spec k wc); [lia|reflexivity].
 Qed.
 
 Definition same_core (s s' : rxst) : Prop :=
@@ -42,7 +65,7 @@ Definition same_core (s s' : rxst) : Prop :=
 Lemma q_write_pres cfg s b : let '(r, s', x) := q_write cfg s b in same_core s s' /\ Forall qish x.
 Proof.
   unfold q_write, same_core. destruct (r_qdata s) eqn:Eq; cbn [negb].
-  - destruct (c_wfail cfg) as [k|]; [destruct (Nat.eqb k (r_wcount s))|];
+  - destruct (c_wfail cfg) as [[k e0]|]; [destruct (Nat.eqb k (r_wcount s))|];
       cbn [r_com r_lastcr r_bdaterr r_msgsize r_goodrcpt r_qdata r_qhdr r_net]; rewrite ?Eq;
       (split; [repeat split|repeat constructor]).
   - rewrite ?Eq. split; [repeat split|repeat constructor].
@@ -63,33 +86,33 @@ Qed.
 (** * the read loop of one BDAT command *)
 Definition cfg_ok (cfg : rxcfg) : Prop := 2 <= c_rs cfg.
 
-Lemma chunk_num cfg chunksize : cfg_ok cfg -> 0 < chunksize ->
-  let num := if Nat.leb (c_rs cfg) chunksize then c_rs cfg - RX_READ_BACK else chunksize in
-  1 <= num /\ num <= chunksize /\ num + 1 <= c_rs cfg.
+Lemma chunk_num cfg (chunksize : N) : cfg_ok cfg -> chunksize <> 0%N ->
+  let num := if N.leb (N.of_nat (c_rs cfg)) chunksize then c_rs cfg - RX_READ_BACK else N.to_nat chunksize in
+  1 <= num /\ (N.of_nat num <= chunksize)%N /\ num + 1 <= c_rs cfg.
 Proof.
-  intros Hc Hs. unfold cfg_ok in Hc. rx_consts. cbv zeta. destruct (Nat.leb_spec (c_rs cfg) chunksize); lia.
+  intros Hc Hs. unfold cfg_ok in Hc. rx_consts. cbv zeta. destruct (N.leb_spec (N.of_nat (c_rs cfg)) chunksize); lia.
 Qed.
 
 (** for every input: no crash, the events are queue writes only, the fields that decide the
     fate of the transaction are untouched *)
-Lemma chunk_loop_gen cfg last : cfg_ok cfg -> forall fuel chunksize s evs, chunksize < fuel ->
+Lemma chunk_loop_gen cfg last : cfg_ok cfg -> forall fuel chunksize s evs, length (avail (r_net s)) < fuel ->
   exists le s' x, chunk_loop fuel cfg last chunksize s evs = Ok (le, s', evs ++ x)
     /\ Forall qish x /\ r_com s' = r_com s /\ r_goodrcpt s' = r_goodrcpt s
     /\ r_qdata s' = r_qdata s /\ r_qhdr s' = r_qhdr s
     /\ (r_bdaterr s <> E0 -> r_bdaterr s' <> E0).
 Proof.
   intros Hcfg. induction fuel as [|f IH]; intros chunksize s evs Hf; [lia|].
-  cbn [chunk_loop]. destruct (Nat.eqb_spec chunksize 0) as [->|Hn].
+  cbn [chunk_loop]. destruct (N.eqb_spec chunksize 0) as [->|Hn].
   { exists LoopOk, s, []. rewrite app_nil_r. repeat split; auto. }
-  destruct (chunk_num cfg chunksize Hcfg ltac:(lia)) as (Hn1 & Hn2 & Hn3).
-  set (num := if Nat.leb (c_rs cfg) chunksize then c_rs cfg - RX_READ_BACK else chunksize) in *.
+  destruct (chunk_num cfg chunksize Hcfg Hn) as (Hn1 & Hn2 & Hn3).
+  set (num := if N.leb (N.of_nat (c_rs cfg)) chunksize then c_rs cfg - RX_READ_BACK else N.to_nat chunksize) in *.
   destruct (net_readbin_ok (c_rs cfg) num (r_net s) Hn3) as (r & net' & Er & Hd & _).
   rewrite Er. cbn [bind].
   destruct r as [d| |].
-  - destruct (Hd d eq_refl) as (Hdl & _).
+  - destruct (Hd d eq_refl) as (Hdl & Hsplit).
     destruct (Nat.eqb_spec (length d) 0) as [E0|_]; [lia|].
-    destruct (Nat.ltb_spec chunksize (length d)) as [Hc|_]; [lia|].
-    destruct (piece_ok (r_lastcr (set_net s net')) (negb (c_fix cfg) && last && Nat.eqb (chunksize - length d) 0) d
+    destruct (N.ltb_spec chunksize (N.of_nat (length d))) as [Hc|_]; [lia|].
+    destruct (piece_ok (r_lastcr (set_net s net')) (negb (c_fix cfg) && last && N.eqb (chunksize - N.of_nat (length d)) 0) d
                 ltac:(destruct d; [cbn in Hdl; lia|discriminate]))
       as (w0 & ws & Ep & _ & _).
     rewrite Ep. cbn [bind].
@@ -104,7 +127,10 @@ Proof.
       destruct wr1 as [e1|].
       * exists (LoopErrWrite e1), s5, (x0 ++ x1). split; [reflexivity|].
         split; [apply Forall_app; split; assumption|]. intuition congruence.
-      * destruct (IH (chunksize - length d) s5 (evs ++ x0 ++ x1) ltac:(lia)) as (le & s' & x & E & Hq & H').
+      * assert (Hlen5 : length (avail (r_net s5)) < f).
+        { destruct Hc1 as (_ & _ & _ & _ & _ & _ & _ & Hn5). destruct Hc0 as (_ & _ & _ & _ & _ & _ & _ & Hn3').
+          rewrite Hn5, Hn3'. rewrite Hsplit, app_length in Hf. lia. }
+        destruct (IH (chunksize - N.of_nat (length d))%N s5 (evs ++ x0 ++ x1) Hlen5) as (le & s' & x & E & Hq & H').
         exists le, s', (x0 ++ x1 ++ x). split; [rewrite E, <- !app_assoc; reflexivity|].
         split; [repeat (apply Forall_app; split); assumption|]. intuition congruence.
   - eexists LoopOk, _, []. rewrite app_nil_r. split; [reflexivity|].
@@ -114,22 +140,22 @@ Proof.
     cbn [r_com r_goodrcpt r_qdata r_qhdr r_bdaterr set_net]. repeat split; auto.
 Qed.
 
-(** without injected faults and with enough data: everything read is converted and queued *)
-Lemma chunk_loop_clean cfg last : cfg_ok cfg -> c_wfail cfg = None -> c_fix cfg = true ->
-  forall fuel chunksize com lc ms qh wc net evs,
-  chunksize < fuel -> n_rfail net = None -> chunksize <= length (avail net) ->
+(** without a fault and with enough data: everything read is converted and queued *)
+Lemma chunk_loop_clean cfg last : cfg_ok cfg -> c_fix cfg = true ->
+  forall fuel k com lc ms qh wc net evs,
+  length (avail net) < fuel -> wf_clean cfg wc -> n_rfail net = None -> k <= length (avail net) ->
   exists wc' net' x,
-    chunk_loop fuel cfg last chunksize (mk_rx com lc E0 ms true true qh wc net) evs
-    = Ok (LoopOk, mk_rx com (endcr lc (firstn chunksize (avail net))) E0 (ms + chunksize) true true qh wc' net', evs ++ x)
-    /\ Forall only_q x /\ queued x = conv lc (firstn chunksize (avail net))
-    /\ avail net' = skipn chunksize (avail net) /\ n_rfail net' = None.
+    chunk_loop fuel cfg last (N.of_nat k) (mk_rx com lc E0 ms true true qh wc net) evs
+    = Ok (LoopOk, mk_rx com (endcr lc (firstn k (avail net))) E0 (ms + k) true true qh wc' net', evs ++ x)
+    /\ Forall only_q x /\ queued x = conv lc (firstn k (avail net))
+    /\ avail net' = skipn k (avail net) /\ n_rfail net' = None /\ wc <= wc'.
 Proof.
-  intros Hcfg Hw Hfix. induction fuel as [|f IH]; intros chunksize com lc ms qh wc net evs Hf Hrf Hav; [lia|].
-  cbn [chunk_loop]. destruct (Nat.eqb_spec chunksize 0) as [->|Hn].
-  { exists wc, net, []. rewrite app_nil_r, Nat.add_0_r. cbn [firstn skipn endcr conv].
+  intros Hcfg Hfix. induction fuel as [|f IH]; intros k com lc ms qh wc net evs Hf Hw Hrf Hav; [lia|].
+  cbn [chunk_loop]. destruct (N.eqb_spec (N.of_nat k) 0) as [E0k|Hn].
+  { assert (k = 0) by lia. subst k. exists wc, net, []. rewrite app_nil_r, Nat.add_0_r. cbn [firstn skipn endcr conv].
     repeat split; auto. }
-  destruct (chunk_num cfg chunksize Hcfg ltac:(lia)) as (Hn1 & Hn2 & Hn3).
-  set (num := if Nat.leb (c_rs cfg) chunksize then c_rs cfg - RX_READ_BACK else chunksize) in *.
+  destruct (chunk_num cfg (N.of_nat k) Hcfg Hn) as (Hn1 & Hn2 & Hn3).
+  set (num := if N.leb (N.of_nat (c_rs cfg)) (N.of_nat k) then c_rs cfg - RX_READ_BACK else N.to_nat (N.of_nat k)) in *.
   cbn [r_net].
   destruct (net_readbin_ok (c_rs cfg) num net Hn3) as (r & net1 & Er & Hd & Hclean).
   rewrite Er. cbn [bind].
@@ -138,26 +164,28 @@ Proof.
   destruct (Hd d eq_refl) as (Hdl & Hsplit).
   cbn [set_net r_com r_lastcr r_bdaterr r_msgsize r_goodrcpt r_qdata r_qhdr r_wcount r_net].
   destruct (Nat.eqb_spec (length d) 0) as [E0'|_]; [lia|].
-  destruct (Nat.ltb_spec chunksize (length d)) as [Hc|_]; [lia|].
+  destruct (N.ltb_spec (N.of_nat k) (N.of_nat (length d))) as [Hc|_]; [lia|].
   rewrite Hfix. cbn [negb andb].
   destruct (piece_ok lc false d ltac:(destruct d; [cbn in Hdl; lia|discriminate])) as (w0 & ws & Ep & Hcat & _).
   cbn [andb] in Hcat. rewrite app_nil_r in Hcat.
   rewrite Ep. cbn [bind].
-  rewrite (q_writes_clean cfg w0 Hw). cbn [r_com r_lastcr r_bdaterr r_msgsize r_goodrcpt r_qdata r_qhdr r_wcount r_net].
-  rewrite (q_writes_clean cfg ws Hw).
-  assert (Hav1 : chunksize - length d <= length (avail net1)).
+  rewrite (q_writes_clean cfg w0) by exact Hw. cbn [r_com r_lastcr r_bdaterr r_msgsize r_goodrcpt r_qdata r_qhdr r_wcount r_net].
+  rewrite (q_writes_clean cfg ws) by (eapply wf_clean_mono; [exact Hw|lia]).
+  assert (Hav1 : k - length d <= length (avail net1)).
   { rewrite Hsplit, app_length in Hav. lia. }
-  destruct (IH (chunksize - length d) com (endcr lc d) (ms + length d) qh (wc + length w0 + length ws) net1
-              (evs ++ map EvQ w0 ++ map EvQ ws) ltac:(lia) Hrf1 Hav1) as (wc' & net' & x & E & Hq & Hqd & Hav' & Hrf').
-  assert (HD : firstn chunksize (avail net) = d ++ firstn (chunksize - length d) (avail net1)).
+  replace (N.of_nat k - N.of_nat (length d))%N with (N.of_nat (k - length d)) by lia.
+  destruct (IH (k - length d) com (endcr lc d) (ms + length d) qh (wc + length w0 + length ws) net1
+              (evs ++ map EvQ w0 ++ map EvQ ws) ltac:(rewrite Hsplit, app_length in Hf; lia)
+              ltac:(eapply wf_clean_mono; [exact Hw|lia]) Hrf1 Hav1) as (wc' & net' & x & E & Hq & Hqd & Hav' & Hrf' & Hwc).
+  assert (HD : firstn k (avail net) = d ++ firstn (k - length d) (avail net1)).
   { rewrite Hsplit, firstn_app, firstn_all2 by lia. reflexivity. }
   exists wc', net', (map EvQ w0 ++ map EvQ ws ++ x). rewrite E.
   split.
-  { rewrite HD, endcr_app, <- !app_assoc. replace (ms + length d + (chunksize - length d)) with (ms + chunksize) by lia. reflexivity. }
+  { rewrite HD, endcr_app, <- !app_assoc. replace (ms + length d + (k - length d)) with (ms + k) by lia. reflexivity. }
   split; [repeat (apply Forall_app; split); auto using only_q_map|].
   split.
   { rewrite !queued_app, !queued_map_q, Hqd, HD, conv_app, <- Hcat, concat_app, <- app_assoc. reflexivity. }
-  split; [|exact Hrf'].
+  split; [|split; [exact Hrf'|lia]].
   rewrite Hav', Hsplit.
   rewrite <- (skipn_app_exact d (avail net1)) at 1. rewrite skipn_skipn'. f_equal. lia.
 Qed.
@@ -182,6 +210,13 @@ Proof. intros H. unfold smtp_bdat. rewrite H. reflexivity. Qed.
 
 Ltac plain_tac := repeat (apply Forall_app; split); repeat (constructor; try exact I); auto.
 
+Lemma err_write_props e s evs : Forall plain evs ->
+  exists rc s' x, err_write e s evs = (Some rc, s', x) /\ r_goodrcpt s' = false /\ Forall plain x /\ rc <> E0.
+Proof.
+  intros H. unfold err_write.
+  destruct e; eexists _, _, _; (split; [reflexivity|]); (split; [reflexivity|]); (split; [plain_tac|discriminate]).
+Qed.
+
 (** every input: no crash; the events carry an envelope only when the command succeeds as the
     LAST one, and after any failure there are no recipients left *)
 Lemma smtp_bdat_gen cfg size last s : cfg_ok cfg ->
@@ -191,11 +226,11 @@ Lemma smtp_bdat_gen cfg size last s : cfg_ok cfg ->
 Proof.
   intros Hcfg. unfold smtp_bdat. destruct (r_goodrcpt s) eqn:Egr; cbn [negb].
   2:{ eexists _, _, _. split; [reflexivity|]. left. split; [plain_tac|]. intros e _ _. exact Egr. }
-  set (init := match r_com s with CsBdat => (s, []) | _ => _ end).
-  assert (Hinit : Forall plain (snd init)).
-  { subst init. destruct (r_com s); [destruct (c_qinit_fail cfg)|constructor|destruct (c_qinit_fail cfg)]; plain_tac. }
-  destruct init as [s1 ev1]. cbn [snd] in Hinit.
-  destruct (chunk_loop_gen cfg last Hcfg (S size) size s1 ev1 ltac:(lia)) as (le & s2 & x & E & Hq & _).
+  assert (Hinit : Forall plain (snd (bdat_init s))).
+  { unfold bdat_init. destruct (r_com s) as [[|]| |]; plain_tac. }
+  destruct (bdat_init s) as [s1 ev1]. cbn [snd] in Hinit. unfold bdat_rest.
+  destruct (chunk_loop_gen cfg last Hcfg (S (length (n_ln (r_net s1)) + length (n_stream (r_net s1)))) size s1 ev1
+              ltac:(unfold avail; rewrite app_length; lia)) as (le & s2 & x & E & Hq & _).
   rewrite E. cbn [bind]. apply qish_plain in Hq.
   assert (Hev2 : Forall plain (ev1 ++ x)) by plain_tac.
   destruct le as [|e|].
@@ -207,7 +242,8 @@ Proof.
       destruct Hw as (_ & Hw). cbn [snd]. apply qish_plain in Hw. plain_tac. }
     destruct crw as [[wr s3] ev3]. cbn [snd] in Hcrw.
     destruct wr as [ew|].
-    + eexists _, _, _. split; [reflexivity|]. left. split; [plain_tac|]. intros e _ _. reflexivity.
+    + destruct (err_write_props ew s3 ev3 Hcrw) as (rc & s' & x' & Ee & Hg & Hp & _). rewrite Ee.
+      eexists _, _, _. split; [reflexivity|]. left. split; [exact Hp|]. intros e _ _. exact Hg.
     + set (szc := if Nat.ltb (c_maxbytes cfg) (r_msgsize s3) && err_eqb (r_bdaterr s3) E0 then _ else (s3, ev3)).
       assert (Hszc : Forall plain (snd szc)).
       { subst szc. destruct (Nat.ltb (c_maxbytes cfg) (r_msgsize s3) && err_eqb (r_bdaterr s3) E0); cbn [snd]; plain_tac. }
@@ -217,7 +253,8 @@ Proof.
       * destruct (err_eqb (r_bdaterr s4) E0) eqn:Eerr; cbn [negb].
         -- eexists _, _, _. split; [reflexivity|]. left. split; [plain_tac|]. intros e He Hne. congruence.
         -- destruct (r_qhdr s4); eexists _, _, _; (split; [reflexivity|]); left; (split; [plain_tac|]); intros e _ _; reflexivity.
-  - eexists _, _, _. split; [reflexivity|]. left. split; [plain_tac|]. intros e' _ _. reflexivity.
+  - destruct (err_write_props e s2 (ev1 ++ x) Hev2) as (rc & s' & x' & Ee & Hg & Hp & _). rewrite Ee.
+    eexists _, _, _. split; [reflexivity|]. left. split; [exact Hp|]. intros e' _ _. exact Hg.
   - eexists _, _, _. split; [reflexivity|]. left. split; [exact Hev2|]. intros e' He. discriminate.
 Qed.
 
@@ -292,7 +329,7 @@ Proof.
   { exists false, s, []. rewrite app_nil_r. repeat split. }
   cbn [run_cmds]. set (s0 := set_net s (prebuffer pre (r_net s))).
   assert (Hg0 : r_goodrcpt s0 = r_goodrcpt s) by reflexivity.
-  assert (Hstep := run_step cfg size last s0 rest evs Hcfg IH).
+  assert (Hstep := run_step cfg (N.of_nat size) last s0 rest evs Hcfg IH).
   destruct (r_com s0) eqn:Ecom.
   - destruct Hstep as (died & s' & x & E & Hnaf & Hdead). exists died, s', x. rewrite Hg0 in Hdead. auto.
   - destruct Hstep as (died & s' & x & E & Hnaf & Hdead). exists died, s', x. rewrite Hg0 in Hdead. auto.
@@ -303,43 +340,44 @@ Proof.
 Qed.
 
 (** * a transaction without injected faults *)
-(** no injected fault, and the version of smtp_bdat is the one of this run's C source *)
-Definition cfg_clean (cfg : rxcfg) : Prop :=
-  cfg_ok cfg /\ c_wfail cfg = None /\ c_qinit_fail cfg = false /\ c_fix cfg = RX_CR_AFTER_LOOP.
+(** the version of smtp_bdat is the one of this run's C source *)
+Definition cfg_clean (cfg : rxcfg) : Prop := cfg_ok cfg /\ c_fix cfg = RX_CR_AFTER_LOOP.
 
 Definition lc0 (com : comst) (lc : bool) : bool := match com with CsBdat => lc | _ => false end.
 Definition ms0 (com : comst) (ms : nat) : nat := match com with CsBdat => ms | _ => 0 end.
 Definition init_evs (com : comst) : list ev := match com with CsBdat => [] | _ => [EvInit; EvHdr] end.
+(** a transaction is starting and queue_init will work, or it is running without error so far;
+    nothing else of the state left by earlier transactions matters *)
+Definition tx_state (com : comst) (be : err) (qd qh : bool) : Prop :=
+  com = CsRcpt false \/ (com = CsBdat /\ qd = true /\ qh = true /\ be = E0).
 
 Ltac rsimpl := cbn [r_com r_lastcr r_bdaterr r_msgsize r_goodrcpt r_qdata r_qhdr r_wcount r_net err_eqb andb negb bind].
 
-Lemma smtp_bdat_clean cfg size last com lc ms qd qh wc net :
-  cfg_clean cfg -> com <> CsHelo -> (com = CsBdat -> qd = true /\ qh = true) ->
+Lemma smtp_bdat_clean cfg size last com lc be ms qd qh wc net :
+  cfg_clean cfg -> wf_clean cfg wc -> tx_state com be qd qh ->
   n_rfail net = None -> size <= length (avail net) -> ms0 com ms + size <= c_maxbytes cfg ->
   let D := firstn size (avail net) in
   exists wc' net' x,
-    smtp_bdat cfg size last (mk_rx com lc E0 ms true qd qh wc net)
+    smtp_bdat cfg (N.of_nat size) last (mk_rx com lc be ms true qd qh wc net)
     = Ok (Some E0,
           (if last then mk_rx CsHelo false E0 (ms0 com ms + size) false false false wc' net'
            else mk_rx CsBdat (endcr (lc0 com lc) D) E0 (ms0 com ms + size) true true true wc' net'),
           x ++ (if last then [EvEnv (ms0 com ms + size); EvFree; EvReply 250] else [EvReply 250]))
     /\ Forall plain x
     /\ queued x = conv (lc0 com lc) D ++ (if last then pend (endcr (lc0 com lc) D) else [])
-    /\ avail net' = skipn size (avail net) /\ n_rfail net' = None.
+    /\ avail net' = skipn size (avail net) /\ n_rfail net' = None /\ wc <= wc'.
 Proof.
-  intros (Hcfg & Hw & Hqi & Hfix) Hcom Hq Hrf Hav Hmax D.
+  intros (Hcfg & Hfix) Hw Hst Hrf Hav Hmax D.
   change RX_CR_AFTER_LOOP with true in Hfix.   (* the theorem is about the repaired code *)
   unfold smtp_bdat. cbn [r_goodrcpt negb r_com].
-  assert (Hinit : (match com with
-                   | CsBdat => (mk_rx com lc E0 ms true qd qh wc net, [])
-                   | _ => if c_qinit_fail cfg
-                          then (mk_rx CsBdat false EDONE 0 true qd qh wc net, [EvInit])
-                          else (mk_rx CsBdat false E0 0 true true true wc net, [EvInit; EvHdr])
-                   end) = (mk_rx CsBdat (lc0 com lc) E0 (ms0 com ms) true true true wc net, init_evs com)).
-  { destruct com; [rewrite Hqi; reflexivity| |congruence]. destruct (Hq eq_refl) as [-> ->]. reflexivity. }
-  cbn [r_goodrcpt r_qdata r_qhdr r_wcount r_net] in *. rewrite Hinit.
-  destruct (chunk_loop_clean cfg last Hcfg Hw Hfix (S size) size CsBdat (lc0 com lc) (ms0 com ms) true wc net (init_evs com)
-              ltac:(lia) Hrf Hav) as (wc1 & net1 & x & E & Hoq & Hqd & Hav1 & Hrf1).
+  assert (Hinit : bdat_init (mk_rx com lc be ms true qd qh wc net)
+                  = (mk_rx CsBdat (lc0 com lc) E0 (ms0 com ms) true true true wc net, init_evs com)).
+  { destruct Hst as [->|(-> & -> & -> & ->)]; reflexivity. }
+  rewrite Hinit. unfold bdat_rest.
+  cbn [r_goodrcpt r_qdata r_qhdr r_wcount r_net] in *.
+  destruct (chunk_loop_clean cfg last Hcfg Hfix (S (length (n_ln net) + length (n_stream net))) size CsBdat (lc0 com lc)
+              (ms0 com ms) true wc net (init_evs com)
+              ltac:(unfold avail; rewrite app_length; lia) Hw Hrf Hav) as (wc1 & net1 & x & E & Hoq & Hqd & Hav1 & Hrf1 & Hwc1).
   rewrite E. cbn [bind]. fold D in E, Hqd |- *. rewrite Hfix.
   cbn [r_lastcr r_bdaterr err_eqb andb r_msgsize r_com r_goodrcpt r_qdata r_qhdr r_wcount r_net].
   assert (Hplx : Forall plain (init_evs com ++ x)).
@@ -350,17 +388,17 @@ Proof.
   destruct last; cbn [andb].
   - destruct (endcr (lc0 com lc) D) eqn:Eend; cbn [andb].
     + (* a CR is held back at the very end: it is written now *)
-      unfold q_write. cbn [r_qdata negb r_wcount]. rewrite Hw. rsimpl.
+      rewrite q_write_clean by (eapply wf_clean_mono; [exact Hw|exact Hwc1]). rsimpl.
       rewrite Hsz. rsimpl.
       exists (S wc1), net1, ((init_evs com ++ x) ++ [EvQ [CR]]). split; [reflexivity|].
       split; [apply Forall_app; split; [exact Hplx|repeat constructor]|].
-      split; [rewrite queued_app, Hqi'; reflexivity|]. split; assumption.
+      split; [rewrite queued_app, Hqi'; reflexivity|]. repeat split; try assumption. lia.
     + rsimpl. rewrite Hsz. rsimpl.
       exists wc1, net1, (init_evs com ++ x). split; [reflexivity|].
-      split; [exact Hplx|]. split; [rewrite Hqi', app_nil_r; reflexivity|]. split; assumption.
+      split; [exact Hplx|]. split; [rewrite Hqi', app_nil_r; reflexivity|]. repeat split; assumption.
   - rsimpl. rewrite Hsz. rsimpl.
     exists wc1, net1, (init_evs com ++ x). split; [reflexivity|].
-    split; [exact Hplx|]. split; [rewrite Hqi', app_nil_r; reflexivity|]. split; assumption.
+    split; [exact Hplx|]. split; [rewrite Hqi', app_nil_r; reflexivity|]. repeat split; assumption.
 Qed.
 
 Lemma total_app a b : total (a ++ b) = total a + total b.
@@ -371,57 +409,57 @@ Proof. intros H. apply plain_noenv. exact H. Qed.
 Lemma existsb_plain_fail x : Forall plain x -> existsb is_fail x = false.
 Proof. intros H. apply plain_noenv. exact H. Qed.
 
-Lemma run_cmds_clean cfg : cfg_clean cfg -> forall mids sz pre com lc ms qd qh wc net evs,
+Lemma run_cmds_clean cfg : cfg_clean cfg -> forall mids sz pre com lc be ms qd qh wc net evs,
   forallb (fun c => negb (snd (fst c))) mids = true ->
-  com <> CsHelo -> (com = CsBdat -> qd = true /\ qh = true) -> n_rfail net = None ->
+  wf_clean cfg wc -> tx_state com be qd qh -> n_rfail net = None ->
   total mids + sz <= length (avail net) -> ms0 com ms + (total mids + sz) <= c_maxbytes cfg ->
   let tot := total mids + sz in
   let D := firstn tot (avail net) in
   exists s' x,
-    run_cmds cfg (mids ++ [(sz, true, pre)]) (mk_rx com lc E0 ms true qd qh wc net) evs
+    run_cmds cfg (mids ++ [(sz, true, pre)]) (mk_rx com lc be ms true qd qh wc net) evs
     = Ok (false, s', evs ++ x ++ [EvEnv (ms0 com ms + tot); EvFree; EvReply 250; EvRc E0])
     /\ existsb is_env x = false /\ existsb is_fail x = false
     /\ queued x = conv (lc0 com lc) D ++ pend (endcr (lc0 com lc) D)
-    /\ avail (r_net s') = skipn tot (avail net).
+    /\ avail (r_net s') = skipn tot (avail net)
+    /\ r_com s' = CsHelo /\ n_rfail (r_net s') = None /\ wc <= r_wcount s'.
 Proof.
   intros Hclean. induction mids as [|[[s1 l1] p1] mids IH];
-    intros sz pre com lc ms qd qh wc net evs Hmids Hcom Hq Hrf Hav Hmax tot D.
+    intros sz pre com lc be ms qd qh wc net evs Hmids Hw Hst Hrf Hav Hmax tot D.
   - (* the LAST command *)
-    cbn [app run_cmds]. unfold set_net. rsimpl.
     destruct (prebuffer_pres pre net) as (Hpa & Hpr).
     cbn [total fold_right Nat.add] in *. subst tot D. cbn [Nat.add].
-    destruct (smtp_bdat_clean cfg sz true com lc ms qd qh wc (prebuffer pre net) Hclean Hcom Hq
-                ltac:(congruence) ltac:(rewrite Hpa; exact Hav) Hmax) as (wc' & net' & x & E & Hpl & Hqd & Hav' & Hrf').
+    destruct (smtp_bdat_clean cfg sz true com lc be ms qd qh wc (prebuffer pre net) Hclean Hw Hst
+                ltac:(congruence) ltac:(rewrite Hpa; exact Hav) Hmax) as (wc' & net' & x & E & Hpl & Hqd & Hav' & Hrf' & Hwc).
     rewrite Hpa in *.
-    assert (Erun : run_cmds cfg [(sz, true, pre)] (mk_rx com lc E0 ms true qd qh wc net) evs
-                   = (do r <- smtp_bdat cfg sz true (mk_rx com lc E0 ms true qd qh wc (prebuffer pre net));
+    assert (Erun : run_cmds cfg [(sz, true, pre)] (mk_rx com lc be ms true qd qh wc net) evs
+                   = (do r <- smtp_bdat cfg (N.of_nat sz) true (mk_rx com lc be ms true qd qh wc (prebuffer pre net));
                       let '(rc, s1, e1) := r in
                       match rc with None => Ok (true, s1, evs ++ e1) | Some e => run_cmds cfg [] s1 (evs ++ e1 ++ [EvRc e]) end)).
-    { cbn [run_cmds]. unfold set_net. rsimpl. destruct com; [reflexivity|reflexivity|congruence]. }
-    cbn [run_cmds] in Erun. unfold set_net in Erun. cbn [r_com r_lastcr r_bdaterr r_msgsize r_goodrcpt r_qdata r_qhdr r_wcount r_net] in Erun.
-    rewrite Erun, E. cbn [bind run_cmds].
+    { cbn [run_cmds]. unfold set_net. rsimpl. destruct Hst as [->|(-> & _)]; reflexivity. }
+    cbn [app]. rewrite Erun, E. cbn [bind run_cmds].
     eexists _, x. split; [rewrite <- !app_assoc; reflexivity|].
     split; [apply existsb_plain_env; exact Hpl|]. split; [apply existsb_plain_fail; exact Hpl|].
-    split; [exact Hqd|exact Hav'].
+    split; [exact Hqd|]. split; [exact Hav'|]. cbn [r_com r_net r_wcount]. repeat split; assumption.
   - cbn [forallb fst snd] in Hmids. apply andb_true_iff in Hmids as [Hl1 Hmids]. apply negb_true_iff in Hl1. subst l1.
     destruct (prebuffer_pres p1 net) as (Hpa & Hpr).
     assert (Htot : total ((s1, false, p1) :: mids) = s1 + total mids) by reflexivity.
     subst tot D. rewrite Htot in *.
-    destruct (smtp_bdat_clean cfg s1 false com lc ms qd qh wc (prebuffer p1 net) Hclean Hcom Hq
-                ltac:(congruence) ltac:(rewrite Hpa; lia) ltac:(lia)) as (wc' & net' & x & E & Hpl & Hqd & Hav' & Hrf').
+    destruct (smtp_bdat_clean cfg s1 false com lc be ms qd qh wc (prebuffer p1 net) Hclean Hw Hst
+                ltac:(congruence) ltac:(rewrite Hpa; lia) ltac:(lia)) as (wc' & net' & x & E & Hpl & Hqd & Hav' & Hrf' & Hwc).
     rewrite Hpa in *.
-    assert (Erun : run_cmds cfg (((s1, false, p1) :: mids) ++ [(sz, true, pre)]) (mk_rx com lc E0 ms true qd qh wc net) evs
-                   = (do r <- smtp_bdat cfg s1 false (mk_rx com lc E0 ms true qd qh wc (prebuffer p1 net));
+    assert (Erun : run_cmds cfg (((s1, false, p1) :: mids) ++ [(sz, true, pre)]) (mk_rx com lc be ms true qd qh wc net) evs
+                   = (do r <- smtp_bdat cfg (N.of_nat s1) false (mk_rx com lc be ms true qd qh wc (prebuffer p1 net));
                       let '(rc, s1', e1) := r in
                       match rc with None => Ok (true, s1', evs ++ e1)
                                | Some e => run_cmds cfg (mids ++ [(sz, true, pre)]) s1' (evs ++ e1 ++ [EvRc e]) end)).
-    { cbn [app run_cmds]. unfold set_net. rsimpl. destruct com; [reflexivity|reflexivity|congruence]. }
+    { cbn [app run_cmds]. unfold set_net. rsimpl. destruct Hst as [->|(-> & _)]; reflexivity. }
     rewrite Erun, E. cbn [bind].
     set (D1 := firstn s1 (avail net)) in *.
     assert (Hav1 : total mids + sz <= length (avail net')) by (rewrite Hav', skipn_length; lia).
-    destruct (IH sz pre CsBdat (endcr (lc0 com lc) D1) (ms0 com ms + s1) true true wc' net'
-                (evs ++ (x ++ [EvReply 250]) ++ [EvRc E0]) Hmids ltac:(discriminate) ltac:(auto) Hrf' Hav1
-                ltac:(cbn [ms0]; lia)) as (s' & x' & E' & Hne' & Hnf' & Hq' & Hav'').
+    destruct (IH sz pre CsBdat (endcr (lc0 com lc) D1) E0 (ms0 com ms + s1) true true wc' net'
+                (evs ++ (x ++ [EvReply 250]) ++ [EvRc E0]) Hmids ltac:(eapply wf_clean_mono; eauto)
+                ltac:(right; auto) Hrf' Hav1
+                ltac:(cbn [ms0]; lia)) as (s' & x' & E' & Hne' & Hnf' & Hq' & Hav'' & Hcom' & Hrf'' & Hwc').
     rewrite E'. cbn [ms0 lc0] in *.
     exists s', ((x ++ [EvReply 250]) ++ [EvRc E0] ++ x'). split.
     { rewrite <- !app_assoc. cbn [app]. replace (ms0 com ms + s1 + (total mids + sz)) with (ms0 com ms + (s1 + total mids + sz)) by lia.
@@ -434,27 +472,28 @@ Proof.
     split.
     + rewrite !queued_app, Hqd, Hq', app_nil_r. cbn [queued app].
       rewrite HD, conv_app, endcr_app. cbn [app]. rewrite <- !app_assoc. reflexivity.
-    + rewrite Hav'', Hav'. rewrite skipn_skipn'. f_equal. lia.
+    + split; [rewrite Hav'', Hav'; rewrite skipn_skipn'; f_equal; lia|].
+      repeat split; try assumption. lia.
 Qed.
 
 (** the whole session of the harness: one transaction, no injected faults *)
 Theorem rx_transaction_ok cfg cmds stream cuts :
-  cfg_clean cfg -> one_transaction cmds ->
+  cfg_clean cfg -> c_wfail cfg = None -> one_transaction cmds ->
   total cmds <= length stream -> total cmds <= c_maxbytes cfg ->
-  exists s evs, rx_session cfg cmds stream cuts None = Ok (false, s, evs)
+  exists s evs, rx_session cfg false cmds stream cuts None = Ok (false, s, evs)
     /\ rx_delivered (firstn (total cmds) stream) evs
     /\ avail (r_net s) = skipn (total cmds) stream.
 Proof.
-  intros Hclean (Hne & Hmids & Hlast) Hlen Hmax.
+  intros Hclean Hwf (Hne & Hmids & Hlast) Hlen Hmax.
   pose proof (app_removelast_last (0, false, 0) Hne) as Hsplit.
   remember (removelast cmds) as mids eqn:Em. remember (last cmds (0, false, 0)) as lastc eqn:El.
   destruct lastc as [[sz l] pre]. cbn [fst snd] in Hlast. subst l.
   clear Em El Hne. subst cmds.
   rewrite total_app in *. cbn [total fold_right] in Hlen, Hmax |- *. rewrite Nat.add_0_r in *.
   unfold rx_session, rx_init.
-  destruct (run_cmds_clean cfg Hclean mids sz pre CsRcpt false 0 false false 0 (mk_net [] stream cuts None) []
-              Hmids ltac:(discriminate) ltac:(discriminate) eq_refl Hlen Hmax)
-    as (s' & x & E & Hne' & Hnf' & Hq' & Hav').
+  destruct (run_cmds_clean cfg Hclean mids sz pre (CsRcpt false) false E0 0 false false 0 (mk_net [] stream cuts None) []
+              Hmids ltac:(unfold wf_clean; rewrite Hwf; exact I) ltac:(left; reflexivity) eq_refl Hlen Hmax)
+    as (s' & x & E & Hne' & Hnf' & Hq' & Hav' & _).
   cbn [avail n_ln n_stream app ms0 lc0 Nat.add] in *.
   exists s', (x ++ [EvEnv (total mids + sz); EvFree; EvReply 250; EvRc E0]). split; [exact E|].
   split; [|exact Hav'].
@@ -465,11 +504,11 @@ Qed.
 
 (** any commands, any data, any read sizes, any injected fault: no crash, and a failed
     command is never followed by an envelope *)
-Theorem rx_session_fail_final cfg cmds stream cuts rfail : cfg_ok cfg ->
-  exists died s evs, rx_session cfg cmds stream cuts rfail = Ok (died, s, evs)
+Theorem rx_session_fail_final cfg qf cmds stream cuts rfail : cfg_ok cfg ->
+  exists died s evs, rx_session cfg qf cmds stream cuts rfail = Ok (died, s, evs)
     /\ no_env_after_fail false evs = true.
 Proof.
-  intros Hcfg. destruct (run_cmds_gen cfg Hcfg cmds (rx_init stream cuts rfail) []) as (died & s & x & E & Hnaf & _).
+  intros Hcfg. destruct (run_cmds_gen cfg Hcfg cmds (rx_init qf stream cuts rfail) []) as (died & s & x & E & Hnaf & _).
   exists died, s, x. split; [exact E|exact Hnaf].
 Qed.
 
@@ -480,8 +519,8 @@ Proof. intros (pre & -> & _ & _ & Hq). rewrite queued_app, Hq. cbn. apply app_ni
 (** F-C19-2: the unrepaired smtp_bdat ([c_fix = false]) loses a CR at the very end of the data when
     the LAST chunk is empty: "BDAT 2" a CR, "BDAT 0 LAST" queues only a *)
 Theorem rx_unrepaired_refuted :
-  let cfg := mk_cfg false None 100 1024 false in
-  exists s evs, rx_session cfg [(2, false, 0); (0, true, 0)] [97; 13]%N [] None = Ok (false, s, evs)
+  let cfg := mk_cfg None 100 1024 false in
+  exists s evs, rx_session cfg false [(2, false, 0); (0, true, 0)] [97; 13]%N [] None = Ok (false, s, evs)
     /\ ~ rx_delivered [97; 13]%N evs.
 Proof.
   eexists _, _. split; [vm_compute; reflexivity|].
